@@ -2111,7 +2111,6 @@ func sameQuietLen(a, b *ssa.Call) bool {
 	return true
 }
 
-
 // countSinks: the calls that take v — or a value computed from it by adding, subtracting or multiplying constants and
 // other values, converting, or merging in a φ — as a count that must not be negative: strings.Repeat / bytes.Repeat
 // (panic) and make (panic). With clamped=true, a flow is dropped where the value is known non-negative: behind a
